@@ -21,8 +21,10 @@
 (***************************************************************************)
 EXTENDS Interp, ProgUniverse, Json
 
-VARIABLES u, ms, phase
-vars == << u, ms, phase >>
+\* (variable names: see the note in MCRefEval.tla - they must not coincide with any formal parameter name of the
+\* extended modules, or TLC stops treating the universe as a constant)
+VARIABLES vU, vRuns, vPhase
+vars == << vU, vRuns, vPhase >>
 
 StepBound == 400
 Partial == IF "PARTIAL" \in DOMAIN IOEnv THEN IOEnv.PARTIAL # "0" ELSE TRUE
@@ -113,27 +115,27 @@ NextMs(mm, ph, x) ==
        LET cs == BudgetCfgs(mm) IN mm \o [i \in 1..Len(cs) |-> Wrap(x, cs[i])]
 NextPhase(mm, ph) == IF ph = 0 THEN 1 ELSE IF AllDone(mm) THEN 2 ELSE ph
 
-Final == phase = 2 /\ AllDone(ms)
+Final == vPhase = 2 /\ AllDone(vRuns)
 
-Init == /\ \E i \in 1..Len(UniverseSeq) : u = UniverseSeq[i]
-        /\ ms = << >>              \* the runs are created by the first step (initial states are computed by one thread)
-        /\ phase = 0
+Init == /\ \E i \in 1..Len(UniverseSeq) : vU = UniverseSeq[i]
+        /\ vRuns = << >>              \* the runs are created by the first step (initial states are computed by one thread)
+        /\ vPhase = 0
 
 Next == /\ ~Final
-        /\ ms' = NextMs(ms, phase, u)
-        /\ phase' = NextPhase(ms, phase)
-        /\ u' = u
+        /\ vRuns' = NextMs(vRuns, vPhase, vU)
+        /\ vPhase' = NextPhase(vRuns, vPhase)
+        /\ vU' = vU
 
 ---------------------------------------------------------------------------
 (* invariants *)
-St(i) == ms[i].m
+St(i) == vRuns[i].m
 Decided(s) == s.status \in {"ok", "err"}
 SameOk(a, b) == a.status = "ok" /\ b.status = "ok" /\ a.cost = b.cost /\ Last(a.val) = Last(b.val)
 SameCounters(a, b) == a.al.atoms = b.al.atoms /\ a.al.pairs = b.al.pairs /\ a.al.heap = b.al.heap
 
 \* C25: every run terminates within the step bound, in a final status, never with InternalError
-InvC25 == /\ \A i \in 1..Len(ms) : St(i).steps <= StepBound
-          /\ Final => \A i \in 1..Len(ms) : /\ St(i).status \in {"ok", "err", "abstain"}
+InvC25 == /\ \A i \in 1..Len(vRuns) : St(i).steps <= StepBound
+          /\ Final => \A i \in 1..Len(vRuns) : /\ St(i).status \in {"ok", "err", "abstain"}
                                             /\ ~(St(i).status = "err" /\ St(i).kind = "InternalError")
                                             /\ (St(i).status = "ok" => Len(St(i).val) = 1 /\ St(i).env = << >> /\ St(i).sf = << >>)
 
@@ -144,7 +146,7 @@ BudgetRel(r, b, M) ==
     /\ (b.status = "err" /\ r.status = "ok") => b.kind = "CostExceeded"
     /\ (r.status = "ok" /\ ~r.exempt /\ NGe(M, r.cost)) => b.status = "ok"
     /\ (r.status = "ok" /\ ~r.exempt /\ NLt(M, r.cost)) => b.status = "err"
-InvC02 == Final => \A i \in 1..Len(ms) : ms[i].c.ref # 0 => BudgetRel(St(ms[i].c.ref), St(i), ms[i].c.budget)
+InvC02 == Final => \A i \in 1..Len(vRuns) : vRuns[i].c.ref # 0 => BudgetRel(St(vRuns[i].c.ref), St(i), vRuns[i].c.budget)
 
 \* C07: the restriction flags only remove successes
 InvC07 == Final => (St(IStrict).status = "ok" => (St(IBase).status = "abstain" \/ SameOk(St(IStrict), St(IBase))))
@@ -161,8 +163,8 @@ InvC30 == Final => ((Decided(St(IBase)) /\ Decided(St(IRuntime)) /\ ~St(IBase).b
                       => Outcome(St(IRuntime)) = Outcome(St(IBase)))
 
 \* C31: checked by the observer at every completed guard; a successful run has left all its guards
-InvC31 == \A i \in 1..Len(ms) : /\ ms[i].c31
-                                /\ (Final /\ St(i).status = "ok") => (ms[i].h = << >> /\ ms[i].exits = St(i).guards)
+InvC31 == \A i \in 1..Len(vRuns) : /\ vRuns[i].c31
+                                /\ (Final /\ St(i).status = "ok") => (vRuns[i].h = << >> /\ vRuns[i].exits = St(i).guards)
 
 ---------------------------------------------------------------------------
 (* case emission: one CASES line per (program, environment) with every run of it *)
@@ -175,8 +177,8 @@ Expect(w) ==
 \* the configuration of a run is identified by its name (flags and dialect are printed once, in the CONFIGS line)
 RunRec(w) == [n |-> w.c.name, b |-> w.c.budget, x |-> Expect(w),
               s |-> w.m.steps, g |-> w.exits, e |-> w.m.exempt, y |-> w.m.beyond]
-EmitCases == Final => (IF Emit THEN PrintT(<< "CASES", ToJson([prog |-> u.p, env |-> u.e, cls |-> u.k,
-                                                                runs |-> [i \in 1..Len(ms) |-> RunRec(ms[i])]]) >>)
+EmitCases == Final => (IF Emit THEN PrintT(<< "CASES", ToJson([prog |-> vU.p, env |-> vU.e, cls |-> vU.k,
+                                                                runs |-> [i \in 1..Len(vRuns) |-> RunRec(vRuns[i])]]) >>)
                        ELSE TRUE)
 
 ConfigTable == [i \in 1..Len(Configs1) |-> [name |-> Configs1[i].name, dialect |-> Configs1[i].dialect, flags |-> Configs1[i].flags]]
